@@ -227,6 +227,15 @@ func c09Ops(E []uint64, nkeys int) []SOp {
 			ops = append(ops, SOp{Kind: "atts", Ents: []Ent{{Key: 1, S: q[0], T: q[1], Root: 2}, {Key: 0, S: p[0], T: p[1], Root: 2}}})
 		}
 	}
+	// The largest values the statement admits (2^63-1), alone and as a batch entry, whatever the alphabet.
+	const top = uint64(1<<63 - 1)
+	ops = append(ops,
+		SOp{Kind: "att", Ents: []Ent{{Key: 0, S: 3, T: top, Root: 1}}},
+		SOp{Kind: "att", Ents: []Ent{{Key: 1, ByKey: true, S: top - 1, T: top, Root: 1}}},
+		SOp{Kind: "prop", Ents: []Ent{{Key: 0, Slot: top, Root: 1}}},
+		SOp{Kind: "atts", Ents: []Ent{{Key: 0, S: 2, T: top, Root: 1}, {Key: 1, ByKey: true, S: 0, T: 1, Root: 1}}},
+		SOp{Kind: "atts", Ents: []Ent{{Key: 1, S: 1, T: 2, Root: 2}, {Key: 0, S: top - 1, T: top, Root: 2}}},
+	)
 	// Requests that are not well-formed (target not above source) are outside this property, but histories contain them:
 	// alone and inside a batch they are refused, and what they leave behind must not make a later advancing request fail
 	// (the batch path writes back the state of every entry, refused ones included - also for a key that never signed).
